@@ -17,7 +17,7 @@ LIT = {
     "int": dict(fallback="5", cond="11", setv="10", wsetv="3", lo="1", hi="10", users=[NOVAL, "3", "100", "5", "-1"], src=("3", "100"), bnd=("10", "5")),
     "hex": dict(fallback="0x5", cond="0x21", setv="0xff", wsetv="0x3", lo="0x1", hi="0x20", users=[NOVAL, "0x1F", "1f", "0x5", "0xff"], src=("0x3", "0xff"), bnd=("0x20", "0x10")),
     "float": dict(fallback="5.0", cond="11.5", setv="10.0", wsetv="3.25", lo="1.5", hi="10.0", users=[NOVAL, "3", "100.5", "5", "-0.5", "2.5e16", "1e-7"], src=("3.25", "100.5"), bnd=("10.0", "7")),
-    "string": dict(fallback="fb", cond="cd", setv="forced", wsetv="weak", users=[NOVAL, "", "fb", "x", 'q"z'], src=("sv", "zz")),
+    "string": dict(fallback="fb", cond="cd", setv="forced", wsetv="weak", users=[NOVAL, "", "fb", "x", 'q"z', "n"], src=("sv", "zz")),
 }
 
 
